@@ -1,6 +1,7 @@
 /-
   C11 — The framework is quiescent between reaction trees (control part: counter, postponed queue, callbacks).
 -/
+import Cobweb.Proofs.Boot
 import Cobweb.Proofs.PendingD
 
 namespace Cobweb.C11
@@ -49,13 +50,13 @@ theorem quiescent_trackers (hc : Ctl s0) (hp : PendD s0) (hr : Reach p h s0 s) (
 /-- **C11 for the model, in one statement**: in every quiescent state reachable from the initial state, the tree
     counter is zero, no command is postponed, every live system command has its callback, no tracker is flagged as
     reacting or holds a prepared entry, and the world command queue is empty. -/
-theorem C11_quiescent (hr : Reach p h ({} : St) s) (hq : s.stack = []) :
+theorem C11_quiescent {s0 : St} (hI0 : CoreInv s0) (hr : Reach p h s0 s) (hq : s.stack = []) :
     s.counter = 0 ∧ s.buffered = [] ∧ (∀ e, s.alive e = true → s.storage e ≠ some false) ∧
     (s.trkSys.reacting = false ∧ s.trkEvt.reacting = false ∧ s.trkEnt.reacting = false ∧ s.trkDsp.reacting = false) ∧
     (s.trkSys.prepared = [] ∧ s.trkEvt.prepared = [] ∧ s.trkEnt.prepared = [] ∧ s.trkDsp.prepared = []) ∧ s.wq = [] := by
-  obtain ⟨a, b, c⟩ := quiescent_control p h ctl_default hr hq
-  obtain ⟨f1, f2, f3, f4, w⟩ := quiescent_flags p h ctl_default once_default flag_default hr hq
-  exact ⟨a, b, c, ⟨f1, f2, f3, f4⟩, quiescent_trackers p h ctl_default pendD_default hr hq, w⟩
+  obtain ⟨a, b, c⟩ := quiescent_control p h hI0.inv5.ctl hr hq
+  obtain ⟨f1, f2, f3, f4, w⟩ := quiescent_flags p h hI0.inv5.ctl hI0.inv5.once hI0.inv5.flag hr hq
+  exact ⟨a, b, c, ⟨f1, f2, f3, f4⟩, quiescent_trackers p h hI0.inv5.ctl hI0.inv5.pendD hr hq, w⟩
 
 example : Ctl ({} : St) ∧ OnceInv ({} : St) ∧ FlagInv ({} : St) ∧ PendD ({} : St) :=
   ⟨ctl_default, once_default, flag_default, pendD_default⟩
